@@ -200,9 +200,14 @@ def check_variant(ctx, tf, vname, raw_ts, ref, desc, eager0):
                     ctx.violation('differs/%s/iteration%s' % (pre, kind), info)
             except Exception as ex:
                 ctx.violation('raises/%s/iteration/%s%s' % (pre, util.exc_key(ex), kind), dict(info, exc=util.exc_detail(ex)))
+            # windows, including empty ones, on every kind of file object
+            for off, ln in ((0, 0), (n // 2, 0), (n, 0), (n // 2, 1), (max(n - 1, 0), 5), (1, n)):
+                attempt('read_data(%s,%s)' % ('0' if off == 0 else 'n' if off == n else 'k', '0' if ln == 0 else 'm'),
+                        lambda: ch.read_data(off, ln), R[off:off + ln], pre + '.read_data(window)')
             if n <= 30:
                 try:
-                    for i in list(range(n)) + [-1] * (n > 0):
+                    order = list(range(n)) + [-1] * (n > 0) + list(range(n - 1, -1, -1)) + [(7 * j + 3) % n for j in range(n)]
+                    for i in order:
                         v = ch[i]
                         if raw_ts and hasattr(v, 'as_datetime64'):
                             v = v.as_datetime64('us')
